@@ -562,7 +562,55 @@ Decls == <<
     [Name |-> Ident("IDENT"), EqualTkn |-> Tk("="), Expr |-> Nd("ScalarLnumber", [NumberTkn |-> Tk("LNUM"), Value |-> Vl("NumberTkn")])])
 >>
 
-Variants == Binaries \o Assigns \o Unaries \o Atoms \o Others \o Statements \o More \o Heredocs \o Decls
+\* ---------------------------------------------------------------- further access chains, destructuring and string offsets
+
+VarOf(n) == Nd("ExprVariable", [DollarTkn |-> TkG("$", "R"), Name |-> n])
+IdxStr(lexcls) == Nd("ScalarString", [StringTkn |-> TkG(lexcls, "LR"), Value |-> Vl("StringTkn")])
+IdxNum == Nd("ScalarLnumber", [NumberTkn |-> TkG("NUMSTR", "LR"), Value |-> Vl("NumberTkn")])
+StrDim(d) == Nd("ExprArrayDimFetch", [Var |-> StrVar, OpenBracketTkn |-> TkG("[", "LR"), Dim |-> d, CloseBracketTkn |-> TkG("]", "L")])
+KeyedList == Nd("ExprList", [ListTkn |-> Tk("list"), OpenBracketTkn |-> Tk("("), Items |-> Ls("listitemk", 1, 2, "SeparatorTkns", ",", "no"), CloseBracketTkn |-> Tk(")")])
+
+More2 == <<
+  \* $$$a, $$$$a: every '$' is a node of its own
+  V("ExprVariable/varvar3", "ExprVariable", {"expr", "var"}, "both", L.atom, TRUE, [DollarTkn |-> TkG("$", "R"), Name |-> VarOf(SimpleVar)]),
+  V("ExprVariable/varvar4", "ExprVariable", {"expr", "var"}, "both", L.atom, TRUE, [DollarTkn |-> TkG("$", "R"), Name |-> VarOf(VarOf(SimpleVar))]),
+  \* calling an element of a property chain:  $a->b->c[1]($x)
+  V("ExprPropertyFetch/chain", "ExprPropertyFetch", {"propchain"}, "both", L.atom, FALSE,
+    [Var |-> Ch("propchain", 0), ObjectOperatorTkn |-> Tk("->"), Prop |-> Ident("IDENT")]),
+  V("ExprVariable/chainbase", "ExprVariable", {"propchain"}, "both", L.atom, TRUE, [Name |-> Ident("VAR")]),
+  V("ExprFunctionCall/dim", "ExprFunctionCall", {"expr", "deref"}, "both", L.atom, FALSE,
+    [Function |-> Nd("ExprArrayDimFetch", [Var |-> Ch("propchain", 0), OpenBracketTkn |-> Tk("["), Dim |-> Ch("expr", 0), CloseBracketTkn |-> Tk("]")]),
+     OpenParenthesisTkn |-> Tk("("), Args |-> Args, CloseParenthesisTkn |-> Tk(")")]),
+  \* class references that are member accesses:  new $a::$b, new $a->b($x), $x instanceof $a->b
+  V("ExprStaticPropertyFetch/classref", "ExprStaticPropertyFetch", {"classref"}, "both", L.atom, TRUE,
+    [Class |-> SimpleVar, DoubleColonTkn |-> Tk("::"), Prop |-> SimpleVar]),
+  V("ExprPropertyFetch/classref", "ExprPropertyFetch", {"classref"}, "both", L.atom, TRUE,
+    [Var |-> SimpleVar, ObjectOperatorTkn |-> Tk("->"), Prop |-> Ident("IDENT")]),
+  V("ExprPropertyFetch/classref2", "ExprPropertyFetch", {"classref"}, "both", L.atom, TRUE,
+    [Var |-> Nd("ExprPropertyFetch", [Var |-> SimpleVar, ObjectOperatorTkn |-> Tk("->"), Prop |-> Ident("IDENT")]), ObjectOperatorTkn |-> Tk("->"), Prop |-> Ident("IDENT")]),
+  \* keyed destructuring with the list keyword (7.1), nested
+  V("ExprList/keyed", "ExprList", {"listexpr"}, "7", 0, FALSE,
+    [ListTkn |-> Tk("list"), OpenBracketTkn |-> Tk("("), Items |-> Ls("listitemk", 1, 2, "SeparatorTkns", ",", "no"), CloseBracketTkn |-> Tk(")")]),
+  V("listitemk/var", "ExprArrayItem", {"listitemk"}, "7", 0, TRUE, [Key |-> Ch("scalar", 0), DoubleArrowTkn |-> Tk("=>"), Val |-> SimpleVar]),
+  V("listitemk/nested", "ExprArrayItem", {"listitemk"}, "7", 0, FALSE, [Key |-> Ch("scalar", 0), DoubleArrowTkn |-> Tk("=>"), Val |-> KeyedList]),
+  \* (a nested short list  [2 => [$a]] = $x  is deliberately absent: the parser keeps the inner brackets as ExprArray and only
+  \*  converts the outermost one to ExprList; whether that is "the corresponding node kind" is not settled by PHP's grammar)
+  \* simple interpolation with an offset: "$a[3]" (number), "$a[0x1A]" / "$a[0b11]" / "$a[key]" (strings), "$a[$i]"
+  V("ScalarEncapsed/idxnum", "ScalarEncapsed", {"expr"}, "both", L.atom, TRUE,
+    [OpenQuoteTkn |-> TkG("\"", "R"), Parts |-> Sq(<<StrText, StrDim(IdxNum)>>), CloseQuoteTkn |-> TkG("\"", "L")]),
+  V("ScalarEncapsed/idxhex", "ScalarEncapsed", {"expr"}, "both", L.atom, TRUE,
+    [OpenQuoteTkn |-> TkG("\"", "R"), Parts |-> Sq(<<StrDim(IdxStr("NUMSTR_HEX")), StrText>>), CloseQuoteTkn |-> TkG("\"", "L")]),
+  V("ScalarEncapsed/idxbin", "ScalarEncapsed", {"expr"}, "both", L.atom, TRUE,
+    [OpenQuoteTkn |-> TkG("\"", "R"), Parts |-> Sq(<<StrDim(IdxStr("NUMSTR_BIN"))>>), CloseQuoteTkn |-> TkG("\"", "L")]),
+  V("ScalarEncapsed/idxkey", "ScalarEncapsed", {"expr"}, "both", L.atom, TRUE,
+    [OpenQuoteTkn |-> TkG("\"", "R"), Parts |-> Sq(<<StrDim(IdxStr("IDXKEY")), StrVar>>), CloseQuoteTkn |-> TkG("\"", "L")]),
+  V("ScalarEncapsed/idxvar", "ScalarEncapsed", {"expr"}, "both", L.atom, TRUE,
+    [OpenQuoteTkn |-> TkG("\"", "R"), Parts |-> Sq(<<StrDim(StrVar), StrText>>), CloseQuoteTkn |-> TkG("\"", "L")]),
+  V("heredoc/idx", "StmtEcho", {"stmt", "closed"}, "both", 0, TRUE,
+    [EchoTkn |-> Tk("echo"), Exprs |-> Sq(<<Heredoc("HEREDOC_START", <<HdText, StrDim(IdxNum), HdText, StrDim(IdxStr("NUMSTR_HEX")), HdText>>)>>), SemiColonTkn |-> TkG(";", "LN")])
+>>
+
+Variants == Binaries \o Assigns \o Unaries \o Atoms \o Others \o Statements \o More \o Heredocs \o Decls \o More2
 
 \* the root: a file is a statement list (the harness prefixes the open tag as free-floating text of the first token)
 RootFill == [Stmts |-> Ls("top", 0, 3, "", "", "no")]
